@@ -8,6 +8,15 @@ from .speclang import REG, SpecFn, Ctor
 from .speceval import Evaluator, Val, SpecError, num
 
 
+class _NoUnfold(Exception):
+    pass
+
+
+OPAQUE = {"withKids", "kidsOf", "kidsOfN", "kidsOfD", "withAttrs", "attrsOf", "attrsOfD", "withAttrsD", "newHead", "listingTag", "headExtra",
+          "hoistKids", "hoist", "docTree", "tagAttrs", "tagKids", "tagRaises", "renderT", "renderL", "docRender", "addClassAttrs", "addStyleAttrs",
+          "removeClassAttrs", "hasClassAttrs", "optArg"}
+
+
 class Z3World(Evaluator):
     def __init__(self, reg=REG, ctx=None):
         super().__init__(reg)
@@ -16,7 +25,12 @@ class Z3World(Evaluator):
         self.dts = {}
         self._build_adts()
         self.funcs = {}
+        self._static = False
+        self._unfold_depth = 0
         self.rec = {n for n in reg.fns if reg.fns[n].kind == "spec" and reg.is_recursive(n)}
+        # non-recursive functions that duplicate a (possibly large) argument in several match arms are kept as named
+        # definitions (define-fun-rec, unfolded lazily by z3) instead of being macro-expanded
+        self.rec |= {n for n in OPAQUE if n in reg.fns and reg.fns[n].kind == "spec"}
         self._declare()
         self._define()
 
@@ -122,6 +136,13 @@ class Z3World(Evaluator):
         return Val("Bool", {"<": a.v < b.v, "<=": a.v <= b.v, ">": a.v > b.v, ">=": a.v >= b.v}[op])
 
     def b_ite(self, c, a, b, want):
+        if self._static:
+            cs = z3.simplify(c.v)
+            if z3.is_true(cs):
+                return a()
+            if z3.is_false(cs):
+                return b()
+            raise _NoUnfold()
         x, y = a(), b()
         if x.sort != y.sort and not (num(x.sort) and num(y.sort)):
             raise SpecError(f"branches have sorts {x.sort} / {y.sort}")
@@ -139,6 +160,19 @@ class Z3World(Evaluator):
 
     def b_call(self, f: SpecFn, args, caller):
         if f.name in self.funcs:
+            if f.kind == "spec" and f.node is not None and self._unfold_depth < 40:
+                # partial evaluation: unfold a defined function whose control flow is decided by the constructors already
+                # present in its arguments (sound: it is the definition); otherwise keep the application
+                saved = (self._static, self._unfold_depth)
+                self._static, self._unfold_depth = True, self._unfold_depth + 1
+                try:
+                    env = {p: Val(s_, z3.simplify(a.v)) for (p, s_), a in zip(f.params, args)}
+                    r = self.eval_block(list(f.node.body), env, f)
+                    return Val(r.sort, z3.simplify(r.v))
+                except _NoUnfold:
+                    pass
+                finally:
+                    self._static, self._unfold_depth = saved
             return Val(f.ret, self.funcs[f.name](*[a.v for a in args]))
         # non-recursive spec function: macro expansion
         env = {p: a for (p, _), a in zip(f.params, args)}
@@ -165,6 +199,16 @@ class Z3World(Evaluator):
         return z3.simplify(z3.And(*conds)), binds
 
     def b_match(self, subj, cases, want, fn):
+        if self._static:
+            for pat, body in cases:
+                p = self.pattern_sorted(pat, subj.sort, fn)
+                cond, binds = self.pat_cond(p, subj.v)
+                cs = z3.simplify(cond)
+                if z3.is_true(cs):
+                    return body({k: Val(v.sort, z3.simplify(v.v)) for k, v in binds.items()})
+                if not z3.is_false(cs):
+                    raise _NoUnfold()
+            raise _NoUnfold()
         built = []
         for pat, body in cases:
             p = self.pattern_sorted(pat, subj.sort, fn)
